@@ -198,6 +198,18 @@ int main(int argc, char** argv) {
   const unsigned NT = asan ? 3 : (quick ? 4 : 7);
   const unsigned NP = asan && quick ? 36 : 71;
 
+  // S1r: every sequence of exactly 3 atoms over a reduced 10-atom alphabet (so that "escape, X, escape"
+  // shapes - the decoder's second scanning phase - are covered in the quick tier as well)
+  static const unsigned redAtoms[10] = {0, 1, 2, 6, 9, 12, 13, 17, 20, 21};
+  static const unsigned redGaps[5] = {0, 1, 15, 16, 31};
+  static const unsigned redTotals[3] = {0, 33, 64};
+  const unsigned RP = asan ? 20 : 41;
+  vr::Family s1r;
+  s1r.name = "S1r_three_atoms_reduced";
+  s1r.count = 1000ull * RP * 5 * 3;
+  s1r.group = "S1r";
+  s1r.chunk = 512;
+  s1r.rule = "all sequences of exactly 3 atoms over the reduced alphabet {plain, \\\", \\\\, \\n, \\u0041, valid pair, lone high, \\x, raw 0x01, raw 0x1f} with p in 0.." + std::to_string(RP - 1) + " plain bytes before, gap g in {0,1,15,16,31} between atoms, padded to total length class {none,33,64}; same four contexts";
   vr::Family s1, s3, u1, u2a, u2b, u2c;
   s1.name = "S1_atom_sequences";
   s1.count = nseq * NP * NG * NT;
@@ -237,6 +249,32 @@ int main(int argc, char** argv) {
 
   vr::CheckFn check = [&](const vr::Family& f, uint64_t idx, vr::Ctx& ctx) {
     const std::string& nm = f.name;
+    if (nm[0] == 'S' && nm[1] == '1' && nm[2] == 'r') {
+      unsigned ti = (unsigned)(idx % 3);
+      idx /= 3;
+      unsigned gi = (unsigned)(idx % 5);
+      idx /= 5;
+      unsigned p = (unsigned)(idx % RP);
+      idx /= RP;
+      unsigned a0 = redAtoms[idx % 10], a1 = redAtoms[(idx / 10) % 10], a2 = redAtoms[(idx / 100) % 10];
+      std::string body(p, 'q');
+      body += A[a0];
+      body.append(redGaps[gi], 'g');
+      body += A[a1];
+      body.append(redGaps[gi], 'g');
+      body += A[a2];
+      unsigned total = redTotals[ti];
+      if (total) {
+        if (body.size() >= total) {
+          ctx.skip();
+          return;
+        }
+        body.append(total - body.size(), 'w');
+      }
+      if (ctx.want_sample) ctx.sample(body);
+      check_body(body, ctx);
+      return;
+    }
     if (nm[0] == 'S' && nm[1] == '1') {
       unsigned ti = (unsigned)(idx % NT);
       idx /= NT;
@@ -311,10 +349,10 @@ int main(int argc, char** argv) {
     check_pair_direct((uint32_t)(idx >> 16), (uint32_t)(idx & 0xffff), ctx, false);
   };
 
-  std::vector<vr::Family> fams = {s1, s3, u1, u2a, u2b};
+  std::vector<vr::Family> fams = {s1, s1r, s3, u1, u2a, u2b};
   if (!quick && !asan) fams.push_back(u2c);
   if (args.replay) {
-    std::vector<vr::Family> all = {s1, s3, u1, u2a, u2b, u2c};
+    std::vector<vr::Family> all = {s1, s1r, s3, u1, u2a, u2b, u2c};
     return R.replay_one(all, check);
   }
   const std::string only = args.get("only");
